@@ -8,7 +8,7 @@ HASHES = ["a", "b", "c", "a.b", "ab"]
 RANGES = ["1", "2", "10", "b.c", "c", "b"]
 NUMKEYS = ["1", "2", "10", "1.0", "007"]
 IDXVALS = ["x", "y", "z", "x.y", "xy"]
-NUMS = ["1", "2", "10", "1.5", "0.1", "-3", "100", "1e2", "007", "2.50", "0"]
+NUMS = ["1", "2", "10", "1.5", "0.1", "-3", "100", "1e2", "007", "2.50", "0", "010", "0017", "8"]
 TABLES = ["tbl", "tb2"]
 
 SCHEMAS = [
@@ -261,7 +261,7 @@ class Gen:
                 l = reqs.setdefault(tt["name"], [])
                 q = r.random()
                 if q < 0.6: l.append({"put": self.item_of(tt)})
-                elif q < 0.95: l.append({"delete": self.key_of(tt["schema"])})
+                elif q < 0.95: l.append({"delete": self.key_of(tt["schema"], exact=r.random() < 0.85)})
                 else: l.append({})
             if r.random() < 0.05:
                 reqs[t["name"]] = [{"put": self.item_of(t)} for _ in range(26)]
@@ -356,12 +356,20 @@ class ExprGen(Gen):
         r = self.r
         k = r.random()
         base = r.choice(ATTRS)
+        item = ctx.get("item") or {}
         if k < 0.08:
             alias = "#" + r.choice(["n", "p", "q_1"])
             ctx["names"][alias] = base
             base = alias
         elif k < 0.11:
             base = r.choice(RESERVED_SAMPLE)
+        v = item.get(base)
+        if v and "L" in v and r.random() < 0.6:
+            # index at, just before and just past the end of the list
+            n = len(v["L"])
+            return base + "[%d]" % r.choice([max(n - 1, 0), n, n, n + 1, 0])
+        if v and "M" in v and v["M"] and r.random() < 0.6:
+            return base + "." + r.choice(list(v["M"]))
         k = r.random()
         if k < 0.7: return base
         if k < 0.82: return base + "." + r.choice(["x", "y", "z"])
@@ -371,7 +379,12 @@ class ExprGen(Gen):
     def val(self, ctx, t=None):
         r = self.r
         name = ":v%d" % len(ctx["values"])
-        ctx["values"][name] = self.typed_value(t or r.choice(TYPES))
+        item = ctx.get("item") or {}
+        same = [v for v in item.values() if t is None or t in v]
+        if same and r.random() < 0.35:
+            ctx["values"][name] = r.choice(same)       # exactly the value some attribute holds: boundaries of <, <=, BETWEEN
+        else:
+            ctx["values"][name] = self.typed_value(t or r.choice(TYPES))
         return name
 
     def operand(self, ctx):
@@ -387,10 +400,27 @@ class ExprGen(Gen):
         if depth <= 0 or k < 0.45:
             k = r.random()
             if k < 0.40:
+                if r.random() < 0.3:
+                    pth = self.path(ctx)
+                    own = (ctx.get("item") or {}).get(pth)
+                    if own:
+                        name = ":v%d" % len(ctx["values"]); ctx["values"][name] = own
+                        return "%s %s %s" % ((pth, r.choice(["=", "<>", "<", "<=", ">", ">="]), name) if r.random() < 0.5 else (name, r.choice(["=", "<=", ">=", "<", ">"]), pth))
                 return "%s %s %s" % (self.operand(ctx), r.choice(["=", "<>", "<", "<=", ">", ">="]), self.operand(ctx))
             if k < 0.50:
                 t = r.choice(["S", "N", "B"])
-                return "%s BETWEEN %s AND %s" % (self.path(ctx), self.val(ctx, t), self.val(ctx, r.choice([t, t, "S"])))
+                pth = self.path(ctx)
+                own = (ctx.get("item") or {}).get(pth)
+                if own and r.random() < 0.5:
+                    # a bound equal to the attribute's own value
+                    t = list(own)[0]
+                    n1, n2 = ":v%d" % len(ctx["values"]), ":v%d" % (len(ctx["values"]) + 1)
+                    other = self.typed_value(t if t in ("S", "N", "B") else "S")
+                    lo, hi = (own, other) if r.random() < 0.5 else (other, own)
+                    if r.random() < 0.3: lo = hi = own
+                    ctx["values"][n1] = lo; ctx["values"][n2] = hi
+                    return "%s BETWEEN %s AND %s" % (pth, n1, n2)
+                return "%s BETWEEN %s AND %s" % (pth, self.val(ctx, t), self.val(ctx, r.choice([t, t, "S"])))
             if k < 0.60:
                 t = r.choice(["S", "N", "BOOL"])
                 return "%s IN (%s)" % (self.path(ctx), ", ".join(self.val(ctx, r.choice([t, t, "S"])) for _ in range(r.randrange(1, 4))))
@@ -408,9 +438,9 @@ class ExprGen(Gen):
         return "(%s)" % self.cond_expr(ctx, depth - 1)
 
     def match_case(self, depth=3):
-        ctx = dict(names={}, values={})
+        ctx = dict(names={}, values={}, item=self.expr_item())
         e = self.cond_expr(ctx, self.r.randrange(0, depth + 1))
-        return dict(op="match", expr=e, item=self.expr_item(), names=ctx["names"], values=ctx["values"])
+        return dict(op="match", expr=e, item=ctx["item"], names=ctx["names"], values=ctx["values"])
 
     # ---- update expressions: every action targets a different top-level attribute ----
     def upd_operand(self, ctx, t):
@@ -418,9 +448,35 @@ class ExprGen(Gen):
         if r.random() < 0.4: return self.path(ctx)
         return self.val(ctx, t)
 
+    def alias_probe(self):
+        """an expression that reads an attribute in one action and changes it in place in a later one"""
+        r = self.r
+        ctx = dict(names={}, values={}, item=self.expr_item())
+        it = ctx["item"]
+        src = r.choice(ATTRS)
+        kind = r.choice(["N", "SS", "L", "NS"])
+        it[src] = self.typed_value(kind)
+        if kind == "L": it[src] = {"L": [{"M": {"q": N("1")}}, S("x")]}
+        rhs = r.choice(["%s", "if_not_exists(f, %s)", "if_not_exists(%s, :d)"]) % src if kind != "L" else \
+            r.choice(["%s", "list_append(%s, :l)", "list_append(:l, %s)", "if_not_exists(f, %s)"]) % src
+        if ":d" in rhs: ctx["values"][":d"] = N("0")
+        if ":l" in rhs: ctx["values"][":l"] = {"L": [S("z")]}
+        if kind == "N": later = "ADD %s %s" % (src, self.val(ctx, "N"))
+        elif kind == "SS": later = r.choice(["ADD %s %s", "DELETE %s %s"]) % (src, self.val(ctx, "SS"))
+        elif kind == "NS": later = r.choice(["ADD %s %s", "DELETE %s %s"]) % (src, self.val(ctx, "NS"))
+        else: later = r.choice(["SET %s[0].q = %s" % (src, self.val(ctx, "N")), "REMOVE %s[0].q" % src, "ADD %s %s" % (src, self.val(ctx, "S"))])
+        tgt = r.choice(["g", "g.x" if "g" in it and "M" in it.get("g", {}) else "g"])
+        if later.startswith("SET "):
+            e = "SET %s = %s, %s" % (tgt, rhs, later[4:])
+        else:
+            e = "SET %s = %s %s" % (tgt, rhs, later)
+        return dict(op="lang_update", expr=e, item=it, names=ctx["names"], values=ctx["values"])
+
     def update_case(self):
         r = self.r
-        ctx = dict(names={}, values={})
+        if r.random() < 0.12:
+            return self.alias_probe()
+        ctx = dict(names={}, values={}, item=self.expr_item())
         targets = r.sample(ATTRS + ["f", "g"], r.randrange(1, 5))
         clauses = {"SET": [], "REMOVE": [], "ADD": [], "DELETE": []}
         for tg in targets:
@@ -435,7 +491,7 @@ class ExprGen(Gen):
                 t = r.choice(TYPES)
                 if q < 0.45: rhs = self.val(ctx, t)
                 elif q < 0.6: rhs = "%s %s %s" % (self.upd_operand(ctx, "N"), r.choice("+-"), self.upd_operand(ctx, "N"))
-                elif q < 0.75: rhs = "if_not_exists(%s, %s)" % (self.path(ctx), self.val(ctx, t))
+                elif q < 0.75: rhs = "if_not_exists(%s, %s)" % (self.path(ctx), self.val(ctx, t) if r.random() < 0.6 else self.path(ctx))
                 elif q < 0.9: rhs = "list_append(%s, %s)" % (self.upd_operand(ctx, "L"), self.upd_operand(ctx, "L"))
                 else: rhs = self.path(ctx)
                 clauses["SET"].append("%s = %s" % (tgt, rhs))
@@ -448,7 +504,7 @@ class ExprGen(Gen):
         order = [c for c in ["SET", "REMOVE", "ADD", "DELETE"] if clauses[c]]
         r.shuffle(order)
         e = " ".join("%s %s" % (c, ", ".join(clauses[c])) for c in order)
-        return dict(op="lang_update", expr=e, item=self.expr_item(), names=ctx["names"], values=ctx["values"])
+        return dict(op="lang_update", expr=e, item=ctx["item"], names=ctx["names"], values=ctx["values"])
 
     # ---- malformed: token-level mutations of valid sentences, stray bytes ----
     def mutate(self, e):
@@ -499,4 +555,9 @@ class ExprGen(Gen):
         elif k < 0.9: s = r.choice(["9007199254740993", "0.1", "0.30000000000000004", "1e23", "-0", "0.0", "1e-7", "123456789012345678", ".5", "5.", "1e", "--1", "1.2.3", ""])
         else: s = "0." + "0" * r.randrange(0, 10) + digits(r.randrange(1, 25))
         if r.random() < 0.1 and not s.startswith("-"): s = "-" + s
-        return dict(op="float", text=s)
+        if r.random() < 0.5:
+            return dict(op="float", text=s)
+        # through the library: every number of an item is re-serialised by an update that targets another attribute
+        k = r.random()
+        item = {"n": N(s)} if k < 0.6 else ({"m": {"M": {"x": N(s)}}} if k < 0.8 else {"ns": {"NS": [s, "1"]}})
+        return dict(op="lang_update", expr="SET z = :o", item=item, names={}, values={":o": S("x")})
